@@ -267,10 +267,17 @@ impl FarmSim {
             let opens: Vec<model::MPos> = self.l.open_positions_of(u.as_str()).into_iter().cloned().collect();
             for p in opens {
                 let _ = self.w.claim(&u, None);
+                // the two documented reasons a rightful close can be refused, read from the state
+                // (not from the wording of the error): 10 closed positions already, unclaimable rewards
+                let closed_count = self.w.all_positions(&u).iter().filter(|x| !x.open).count();
+                let pending = match self.w.rewards(&u, None) {
+                    Ok(c) => c.iter().any(|x| !x.amount.is_zero()),
+                    Err(_) => true,
+                };
                 let r = self.w.pos(&u, fm::PositionAction::Close { identifier: p.id.clone(), lp_asset: None }, &[]);
                 if let Err(e) = r {
                     // a user with 10 closed positions cannot close more before withdrawing: not a custody matter
-                    if e.contains("Maximum") || e.contains("maximum") || e.contains("exceeded") || e.contains("ending rewards") {
+                    if closed_count >= 10 || pending || e.contains("Maximum") || e.contains("maximum") || e.contains("exceeded") || e.contains("ending rewards") {
                         st.bump("liquidation: position left open (limit or unclaimable rewards)");
                         continue;
                     }
